@@ -69,6 +69,9 @@ class OpContext(threading.local):
         self.count = 0
         self.fired = 0
         self.calls = 0
+        self.stall = None  # None | n : the n-th callback invocation of this operation stalls
+        self.stall_count = 0
+        self.stalled = 0
 
 
 CTX = OpContext()
@@ -83,6 +86,15 @@ def callback(name: str):
             c = CTX
             c.calls += 1
             CALLS[name] = CALLS.get(name, 0) + 1
+            if c.stall is not None:
+                c.stall_count += 1
+                if c.stall_count == c.stall:
+                    from dst import sched as _sched
+
+                    sim = _sched.CURRENT
+                    if sim is not None and sim.in_sim_thread():
+                        c.stalled += 1
+                        sim.stall()  # a slow user callable: everybody else gets ahead
             arm = c.armed
             if arm is not None and (arm[0] == "*" or arm[0] == name):
                 c.count += 1
